@@ -579,7 +579,7 @@ class Sym:
         return self
 
     def __abs__(self):
-        if self.e.numer.is_ground:
+        if self.e.numer.is_ground and self.e.denom.is_ground:
             return self if (self.e.numer.LC if self.e != 0 else 0) >= 0 else -self
         sg = self.ctx.quadratic_sign(self.e)
         if sg is not None:
@@ -603,7 +603,7 @@ class Sym:
         if e is None:
             return NotImplemented
         d = (e - self.e) if swap else (self.e - e)
-        if d.numer.is_ground:   # constant: decide now
+        if d.numer.is_ground and d.denom.is_ground:   # constant: decide now
             c = d.numer.LC if d != 0 else 0
             den = d.denom.LC
             v = Fraction(int(c.numerator), int(c.denominator)) / Fraction(int(den.numerator), int(den.denominator)) if c != 0 else 0
